@@ -18,184 +18,249 @@ theorem sum_append (a b : List Rat) : sum (a ++ b) = sum a + sum b := by
   | nil => simp [sum]; grind
   | cons x xs ih => simp only [List.cons_append, sum_cons, ih]; grind
 
-theorem sumScalarLoop_eq (l : List Rat) (s0 s1 s2 s3 : Rat) :
-    sumScalarLoop l s0 s1 s2 s3 = s0 + s1 + s2 + s3 + sum l := by
+/-- IEEE addition on NaN / ±∞ / exact numbers is associative and commutative (rounding aside) -/
+theorem F.add_assoc' (a b c : F) : F.add (F.add a b) c = F.add a (F.add b c) := by
+  cases a <;> cases b <;> cases c <;> simp [F.add] <;> grind
+
+theorem F.add_comm' (a b : F) : F.add a b = F.add b a := by
+  cases a <;> cases b <;> simp [F.add] <;> grind
+
+instance : Std.Associative (α := F) (· + ·) := ⟨F.add_assoc'⟩
+instance : Std.Commutative (α := F) (· + ·) := ⟨F.add_comm'⟩
+
+theorem F.add_zero' (a : F) : a + F.num 0 = a := by
+  cases a with
+  | nan => rfl
+  | inf s => rfl
+  | num q => show F.num (q + 0) = F.num q; congr 1; grind
+
+theorem sumX_cons (x : X) (xs : List X) : sumX (x :: xs) = x.toF + sumX xs := rfl
+
+theorem foldl_addX_eq (l : List X) (s : F) : l.foldl (fun s x => s + x.toF) s = s + sumX l := by
+  induction l generalizing s with
+  | nil => simp [sumX, F.add_zero']
+  | cons x xs ih => simp only [List.foldl_cons, ih, sumX_cons]; ac_rfl
+
+theorem sumScalarLoop_eq (l : List X) (s0 s1 s2 s3 : F) :
+    sumScalarLoop l s0 s1 s2 s3 = s0 + s1 + s2 + s3 + sumX l := by
   fun_induction sumScalarLoop l s0 s1 s2 s3 with
-  | case1 a b c d rest s0 s1 s2 s3 ih => rw [ih]; simp only [sum_cons]; grind
-  | case2 rem s0 s1 s2 s3 _ => rw [foldl_add_eq]; grind
+  | case1 a b c d rest s0 s1 s2 s3 ih => rw [ih]; simp only [sumX_cons]; ac_rfl
+  | case2 rem s0 s1 s2 s3 _ => rw [foldl_addX_eq]; ac_rfl
 
-theorem sumAvx2Loop_eq (l : List Rat) (s0 s1 s2 s3 : Rat) :
-    sumAvx2Loop l s0 s1 s2 s3 = s0 + s1 + s2 + s3 + sum l := by
+theorem sumAvx2Loop_eq (l : List X) (s0 s1 s2 s3 : F) :
+    sumAvx2Loop l s0 s1 s2 s3 = s0 + s1 + s2 + s3 + sumX l := by
   fun_induction sumAvx2Loop l s0 s1 s2 s3 with
-  | case1 a b c d rest s0 s1 s2 s3 ih => rw [ih]; simp only [sum_cons]; grind
-  | case2 rem s0 s1 s2 s3 _ => rw [foldl_add_eq]
+  | case1 a b c d rest s0 s1 s2 s3 ih => rw [ih]; simp only [sumX_cons]; ac_rfl
+  | case2 rem s0 s1 s2 s3 _ => rw [foldl_addX_eq]
 
-theorem sumScalar_eq (l : List Rat) : sumScalar l = sum l := by
-  rw [sumScalar, sumScalarLoop_eq]; grind
+theorem zero4 (x : F) : F.num 0 + F.num 0 + F.num 0 + F.num 0 + x = x := by
+  have h : (F.num 0 + F.num 0 : F) = F.num 0 := F.add_zero' _
+  rw [h, h, h]
+  have : F.num 0 + x = x + F.num 0 := by ac_rfl
+  rw [this, F.add_zero']
 
-theorem sumAvx2_eq (l : List Rat) : sumAvx2 l = sum l := by
-  rw [sumAvx2, sumAvx2Loop_eq]; grind
+theorem sumScalar_eq (l : List X) : sumScalar l = sumX l := by
+  rw [sumScalar, sumScalarLoop_eq, zero4]
+
+theorem sumAvx2_eq (l : List X) : sumAvx2 l = sumX l := by
+  rw [sumAvx2, sumAvx2Loop_eq, zero4]
+
+/-- on finite values the extended sum is the rational sum -/
+theorem sumX_num (l : List Rat) : sumX (l.map X.num) = F.num (sum l) := by
+  induction l with
+  | nil => rfl
+  | cons x xs ih => simp only [List.map_cons, sumX_cons, ih, sum_cons]; rfl
 
 /-! ### the paths see the same valid values -/
 
-theorem toRat_fill (v : Val) : F.toRat? ((getFloat v).getD .nan) = v.valid? := by
+theorem toX_fill (v : Val) : F.toX? ((getFloat v).getD .nan) = v.validX? := by
   cases v <;> rfl
 
-theorem toRat_refs (v : Val) : (getFloat v).bind F.toRat? = v.valid? := by
+theorem toX_refs (v : Val) : (getFloat v).bind F.toX? = v.validX? := by
   cases v <;> rfl
 
-theorem validFill_eq (vs : List Val) : validFill vs = valid vs := by
-  simp only [validFill, extractNaN, nonNaN, valid, List.filterMap_map]
+theorem validFill_eq (vs : List Val) : validFill vs = validX vs := by
+  simp only [validFill, extractNaN, nonNaN, validX, List.filterMap_map]
   congr 1
   funext v
-  exact toRat_fill v
+  exact toX_fill v
 
-theorem validRefs_eq (vs : List Val) : validRefs vs = valid vs := by
-  simp only [validRefs, floats, nonNaN, valid, List.filterMap_filterMap]
+theorem validRefs_eq (vs : List Val) : validRefs vs = validX vs := by
+  simp only [validRefs, floats, nonNaN, validX, List.filterMap_filterMap]
   congr 1
   funext v
-  exact toRat_refs v
+  exact toX_refs v
 
-/-! ### min / max -/
+/-! ### min / max over the extended reals -/
 
-theorem minAcc_eq (m : Option Rat) (v : Rat) : minAcc m v = minOpt m (some v) := by
-  cases m <;> rfl
+theorem minX_assoc (a b c : X) : minX (minX a b) c = minX a (minX b c) := by
+  cases a <;> cases b <;> cases c <;> simp [minX, X.lt] <;> grind
 
-theorem minOpt_none_right (a : Option Rat) : minOpt a none = a := by cases a <;> rfl
-theorem minOpt_none_left (a : Option Rat) : minOpt none a = a := by cases a <;> rfl
+theorem minX_comm (a b : X) : minX a b = minX b a := by
+  cases a <;> cases b <;> simp [minX, X.lt] <;> grind
 
-theorem minOpt_assoc (a b c : Option Rat) : minOpt (minOpt a b) c = minOpt a (minOpt b c) := by
-  cases a <;> cases b <;> cases c <;> simp [minOpt] <;> grind
+instance : Std.Associative minX := ⟨minX_assoc⟩
+instance : Std.Commutative minX := ⟨minX_comm⟩
 
-theorem minOpt_comm (a b : Option Rat) : minOpt a b = minOpt b a := by
-  cases a <;> cases b <;> simp [minOpt] <;> grind
+theorem minAcc_eq (m v : X) : minAcc m v = minX m v := rfl
+theorem minLane_eq (m v : X) : minLane m v = minX m v := by
+  cases m <;> cases v <;> simp [minLane, minX, X.lt] <;> grind
+theorem minX_top (a : X) : minX a (.inf false) = a := by
+  cases a <;> simp [minX, X.lt] <;> grind
 
-instance : Std.Associative minOpt := ⟨minOpt_assoc⟩
-instance : Std.Commutative minOpt := ⟨minOpt_comm⟩
-
-theorem foldl_minAcc (l : List Rat) (m : Option Rat) : l.foldl minAcc m = minOpt m (minScalar l) := by
+theorem foldl_minAcc (l : List X) (m : X) : l.foldl minAcc m = minX m (minScalar l) := by
   induction l generalizing m with
-  | nil => simp [minScalar, minOpt_none_right]
+  | nil => simp [minScalar, minX_top]
   | cons x xs ih =>
     simp only [List.foldl_cons, minScalar]
-    rw [ih, ih (minAcc none x), minAcc_eq, minAcc_eq, minOpt_none_left, minOpt_assoc]
+    rw [ih, ih (minAcc (.inf false) x), minAcc_eq, minAcc_eq]
+    have : minX (X.inf false) x = x := by rw [minX_comm, minX_top]
+    rw [this, minX_assoc]
 
-theorem minScalar_cons (x : Rat) (xs : List Rat) : minScalar (x :: xs) = minOpt (some x) (minScalar xs) := by
+theorem minScalar_cons (x : X) (xs : List X) : minScalar (x :: xs) = minX x (minScalar xs) := by
   simp only [minScalar, List.foldl_cons]
-  rw [foldl_minAcc]; rfl
+  rw [foldl_minAcc, minAcc_eq]
+  have : minX (X.inf false) x = x := by rw [minX_comm, minX_top]
+  rw [this]; rfl
 
-theorem minAvx2Loop_eq (l : List Rat) (m0 m1 m2 m3 : Option Rat) :
-    minAvx2Loop l m0 m1 m2 m3 = minOpt (minOpt (minOpt (minOpt m0 m1) m2) m3) (minScalar l) := by
+theorem minAvx2Loop_eq (l : List X) (m0 m1 m2 m3 : X) :
+    minAvx2Loop l m0 m1 m2 m3 = minX (minX (minX (minX m0 m1) m2) m3) (minScalar l) := by
   fun_induction minAvx2Loop l m0 m1 m2 m3 with
   | case1 a b c d rest m0 m1 m2 m3 ih =>
     rw [ih]
-    simp only [minScalar_cons, minAcc_eq]
+    simp only [minScalar_cons, minLane_eq]
     ac_rfl
   | case2 rem m0 m1 m2 m3 _ => rw [foldl_minAcc]
 
 /-- lane-wise (AVX2) and sequential (scalar) minimum agree on every list -/
-theorem minAvx2_eq (l : List Rat) : minAvx2 l = minScalar l := by
-  rw [minAvx2, minAvx2Loop_eq]; simp [minOpt]
+theorem minAvx2_eq (l : List X) : minAvx2 l = minScalar l := by
+  rw [minAvx2, minAvx2Loop_eq]
+  have h : minX (X.inf false) (X.inf false) = X.inf false := minX_top _
+  rw [h, h, h, minX_comm, minX_top]
 
-/-- `minScalar` is the least element -/
-theorem minScalar_spec (l : List Rat) :
-    (l = [] → minScalar l = none) ∧
-    (l ≠ [] → ∃ m, minScalar l = some m ∧ m ∈ l ∧ ∀ x ∈ l, m ≤ x) := by
+theorem minX_cases (a b : X) : (minX a b = a ∨ minX a b = b) ∧ X.lt a (minX a b) = false ∧ X.lt b (minX a b) = false := by
+  cases a <;> cases b <;> simp [minX, X.lt] <;> grind
+
+theorem lt_trans_false (x m m' : X) (h1 : X.lt x m = false) (h2 : X.lt m m' = false) (h3 : m' = m ∨ True) :
+    X.lt m' m = false → X.lt x m' = false := by
+  cases x <;> cases m <;> cases m' <;> simp [X.lt] at * <;> grind
+
+/-- `minScalar` of a non-empty list is a member that no member is below -/
+theorem minScalar_spec (l : List X) (h : l ≠ []) :
+    minScalar l ∈ l ∧ ∀ x ∈ l, X.lt x (minScalar l) = false := by
   induction l with
-  | nil => simp [minScalar]
+  | nil => exact absurd rfl h
   | cons x xs ih =>
-    refine ⟨by simp, fun _ => ?_⟩
     rw [minScalar_cons]
     cases xs with
-    | nil => simp [minScalar, minOpt]
+    | nil =>
+      simp only [minScalar, List.foldl_nil, minX_top]
+      refine ⟨by simp, ?_⟩
+      intro y hy; simp at hy; subst hy
+      cases y <;> simp [X.lt] <;> grind
     | cons y ys =>
-      obtain ⟨m, hm, hmem, hle⟩ := ih.2 (by simp)
-      rw [hm]
-      by_cases hlt : m < x
-      · refine ⟨m, by simp [minOpt, hlt], List.mem_cons_of_mem _ hmem, ?_⟩
-        intro z hz
+      obtain ⟨hmem, hle⟩ := ih (by simp)
+      generalize minScalar (y :: ys) = m at *
+      obtain ⟨hc, h1, h2⟩ := minX_cases x m
+      constructor
+      · rcases hc with e | e
+        · rw [e]; simp
+        · rw [e]; exact List.mem_cons_of_mem _ hmem
+      · intro z hz
         rcases List.mem_cons.mp hz with e | e
-        · subst e; grind
-        · exact hle z e
-      · refine ⟨x, by simp [minOpt, hlt], by simp, ?_⟩
-        intro z hz
-        rcases List.mem_cons.mp hz with e | e
-        · subst e; grind
-        · have := hle z e; grind
+        · subst e; exact h1
+        · have hz' := hle z e
+          generalize minX x m = r at *
+          cases z <;> cases m <;> cases r <;> simp [X.lt] at * <;> grind
 
-theorem maxAcc_eq (m : Option Rat) (v : Rat) : maxAcc m v = maxOpt m (some v) := by
-  cases m <;> rfl
+theorem maxX_assoc (a b c : X) : maxX (maxX a b) c = maxX a (maxX b c) := by
+  cases a <;> cases b <;> cases c <;> simp [maxX, X.lt] <;> grind
 
-theorem maxOpt_none_right (a : Option Rat) : maxOpt a none = a := by cases a <;> rfl
-theorem maxOpt_none_left (a : Option Rat) : maxOpt none a = a := by cases a <;> rfl
+theorem maxX_comm (a b : X) : maxX a b = maxX b a := by
+  cases a <;> cases b <;> simp [maxX, X.lt] <;> grind
 
-theorem maxOpt_assoc (a b c : Option Rat) : maxOpt (maxOpt a b) c = maxOpt a (maxOpt b c) := by
-  cases a <;> cases b <;> cases c <;> simp [maxOpt] <;> grind
+instance : Std.Associative maxX := ⟨maxX_assoc⟩
+instance : Std.Commutative maxX := ⟨maxX_comm⟩
 
-theorem maxOpt_comm (a b : Option Rat) : maxOpt a b = maxOpt b a := by
-  cases a <;> cases b <;> simp [maxOpt] <;> grind
+theorem maxAcc_eq (m v : X) : maxAcc m v = maxX m v := rfl
+theorem maxLane_eq (m v : X) : maxLane m v = maxX m v := by
+  cases m <;> cases v <;> simp [maxLane, maxX, X.lt] <;> grind
+theorem maxX_bot (a : X) : maxX a (.inf true) = a := by
+  cases a <;> simp [maxX, X.lt] <;> grind
 
-instance : Std.Associative maxOpt := ⟨maxOpt_assoc⟩
-instance : Std.Commutative maxOpt := ⟨maxOpt_comm⟩
-
-theorem foldl_maxAcc (l : List Rat) (m : Option Rat) : l.foldl maxAcc m = maxOpt m (maxScalar l) := by
+theorem foldl_maxAcc (l : List X) (m : X) : l.foldl maxAcc m = maxX m (maxScalar l) := by
   induction l generalizing m with
-  | nil => simp [maxScalar, maxOpt_none_right]
+  | nil => simp [maxScalar, maxX_bot]
   | cons x xs ih =>
     simp only [List.foldl_cons, maxScalar]
-    rw [ih, ih (maxAcc none x), maxAcc_eq, maxAcc_eq, maxOpt_none_left, maxOpt_assoc]
+    rw [ih, ih (maxAcc (.inf true) x), maxAcc_eq, maxAcc_eq]
+    have : maxX (X.inf true) x = x := by rw [maxX_comm, maxX_bot]
+    rw [this, maxX_assoc]
 
-theorem maxScalar_cons (x : Rat) (xs : List Rat) : maxScalar (x :: xs) = maxOpt (some x) (maxScalar xs) := by
+theorem maxScalar_cons (x : X) (xs : List X) : maxScalar (x :: xs) = maxX x (maxScalar xs) := by
   simp only [maxScalar, List.foldl_cons]
-  rw [foldl_maxAcc]; rfl
+  rw [foldl_maxAcc, maxAcc_eq]
+  have : maxX (X.inf true) x = x := by rw [maxX_comm, maxX_bot]
+  rw [this]; rfl
 
-theorem maxAvx2Loop_eq (l : List Rat) (m0 m1 m2 m3 : Option Rat) :
-    maxAvx2Loop l m0 m1 m2 m3 = maxOpt (maxOpt (maxOpt (maxOpt m0 m1) m2) m3) (maxScalar l) := by
+theorem maxAvx2Loop_eq (l : List X) (m0 m1 m2 m3 : X) :
+    maxAvx2Loop l m0 m1 m2 m3 = maxX (maxX (maxX (maxX m0 m1) m2) m3) (maxScalar l) := by
   fun_induction maxAvx2Loop l m0 m1 m2 m3 with
   | case1 a b c d rest m0 m1 m2 m3 ih =>
     rw [ih]
-    simp only [maxScalar_cons, maxAcc_eq]
+    simp only [maxScalar_cons, maxLane_eq]
     ac_rfl
   | case2 rem m0 m1 m2 m3 _ => rw [foldl_maxAcc]
 
-theorem maxAvx2_eq (l : List Rat) : maxAvx2 l = maxScalar l := by
-  rw [maxAvx2, maxAvx2Loop_eq]; simp [maxOpt]
+theorem maxAvx2_eq (l : List X) : maxAvx2 l = maxScalar l := by
+  rw [maxAvx2, maxAvx2Loop_eq]
+  have h : maxX (X.inf true) (X.inf true) = X.inf true := maxX_bot _
+  rw [h, h, h, maxX_comm, maxX_bot]
 
-theorem maxScalar_spec (l : List Rat) :
-    (l = [] → maxScalar l = none) ∧
-    (l ≠ [] → ∃ m, maxScalar l = some m ∧ m ∈ l ∧ ∀ x ∈ l, x ≤ m) := by
+theorem maxX_cases (a b : X) : (maxX a b = a ∨ maxX a b = b) ∧ X.lt (maxX a b) a = false ∧ X.lt (maxX a b) b = false := by
+  cases a <;> cases b <;> simp [maxX, X.lt] <;> grind
+
+/-- `maxScalar` of a non-empty list is a member that no member is above -/
+theorem maxScalar_spec (l : List X) (h : l ≠ []) :
+    maxScalar l ∈ l ∧ ∀ x ∈ l, X.lt (maxScalar l) x = false := by
   induction l with
-  | nil => simp [maxScalar]
+  | nil => exact absurd rfl h
   | cons x xs ih =>
-    refine ⟨by simp, fun _ => ?_⟩
     rw [maxScalar_cons]
     cases xs with
-    | nil => simp [maxScalar, maxOpt]
+    | nil =>
+      simp only [maxScalar, List.foldl_nil, maxX_bot]
+      refine ⟨by simp, ?_⟩
+      intro y hy; simp at hy; subst hy
+      cases y <;> simp [X.lt] <;> grind
     | cons y ys =>
-      obtain ⟨m, hm, hmem, hle⟩ := ih.2 (by simp)
-      rw [hm]
-      by_cases hlt : m > x
-      · refine ⟨m, by simp [maxOpt, hlt], List.mem_cons_of_mem _ hmem, ?_⟩
-        intro z hz
+      obtain ⟨hmem, hle⟩ := ih (by simp)
+      generalize maxScalar (y :: ys) = m at *
+      obtain ⟨hc, h1, h2⟩ := maxX_cases x m
+      constructor
+      · rcases hc with e | e
+        · rw [e]; simp
+        · rw [e]; exact List.mem_cons_of_mem _ hmem
+      · intro z hz
         rcases List.mem_cons.mp hz with e | e
-        · subst e; grind
-        · exact hle z e
-      · refine ⟨x, by simp [maxOpt, hlt], by simp, ?_⟩
-        intro z hz
-        rcases List.mem_cons.mp hz with e | e
-        · subst e; grind
-        · have := hle z e; grind
+        · subst e; exact h1
+        · have hz' := hle z e
+          generalize maxX x m = r at *
+          cases z <;> cases m <;> cases r <;> simp [X.lt] at * <;> grind
 
 /-! ### NaN-propagating arithmetic -/
 
 @[simp] theorem F.num_add (a b : Rat) : F.num a + F.num b = F.num (a + b) := rfl
-@[simp] theorem F.num_sub (a b : Rat) : F.num a - F.num b = F.num (a - b) := rfl
+@[simp] theorem F.num_sub (a b : Rat) : F.num a - F.num b = F.num (a - b) := by
+  show F.num (a + -b) = F.num (a - b)
+  congr 1; grind
 @[simp] theorem F.num_mul (a b : Rat) : F.num a * F.num b = F.num (a * b) := rfl
 @[simp] theorem F.num_div (a b : Rat) : F.num a / F.num b = F.num (a / b) := rfl
 @[simp] theorem F.nan_add (x : F) : F.nan + x = F.nan := rfl
 @[simp] theorem F.add_nan (x : F) : x + F.nan = F.nan := by cases x <;> rfl
 @[simp] theorem F.nan_sub (x : F) : F.nan - x = F.nan := rfl
 @[simp] theorem F.sub_nan (x : F) : x - F.nan = F.nan := by cases x <;> rfl
+@[simp] theorem F.div_nan (x : F) : x / F.nan = F.nan := by cases x <;> rfl
 @[simp] theorem F.nan_mul (x : F) : F.nan * x = F.nan := rfl
 @[simp] theorem F.mul_nan (x : F) : x * F.nan = F.nan := by cases x <;> rfl
 @[simp] theorem F.nan_div (x : F) : F.nan / x = F.nan := rfl
@@ -423,23 +488,98 @@ theorem sampleVar_nonneg (l : List Rat) : 0 ≤ sampleVar l := by
 
 /-! ### NaN-free inputs -/
 
-theorem floats_of_no_nan (vs : List Val) (h : Val.nan ∉ vs) : floats vs = (valid vs).map F.num := by
+theorem floats_of_finite (vs : List Val) (h : finiteOnly vs) : floats vs = (valid vs).map F.num := by
   induction vs with
   | nil => rfl
   | cons v rest ih =>
-    have hr : Val.nan ∉ rest := fun e => h (List.mem_cons_of_mem _ e)
-    have hv : v ≠ Val.nan := fun e => h (by simp [e])
+    have hr : finiteOnly rest := ⟨fun e => h.1 (List.mem_cons_of_mem _ e), fun s e => h.2 s (List.mem_cons_of_mem _ e)⟩
     simp only [floats, valid] at ih ⊢
     cases v with
-    | nan => exact absurd rfl hv
+    | nan => exact absurd (by simp) h.1
+    | inf s => exact absurd (by simp) (h.2 s)
     | missing => rw [List.filterMap_cons_none (by rfl), List.filterMap_cons_none (by rfl)]; exact ih hr
     | nonNum t => rw [List.filterMap_cons_none (by rfl), List.filterMap_cons_none (by rfl)]; exact ih hr
+    | negZero =>
+      rw [List.filterMap_cons_some (b := F.num 0) (by rfl), List.filterMap_cons_some (b := (0 : Rat)) (by rfl),
+        List.map_cons, ih hr]
     | int i =>
       rw [List.filterMap_cons_some (b := F.num i) (by rfl), List.filterMap_cons_some (b := (i : Rat)) (by rfl),
         List.map_cons, ih hr]
     | flt q =>
       rw [List.filterMap_cons_some (b := F.num q) (by rfl), List.filterMap_cons_some (b := q) (by rfl),
         List.map_cons, ih hr]
+
+theorem validX_of_finite (vs : List Val) (h : finiteOnly vs) : validX vs = (valid vs).map X.num := by
+  induction vs with
+  | nil => rfl
+  | cons v rest ih =>
+    have hr : finiteOnly rest := ⟨fun e => h.1 (List.mem_cons_of_mem _ e), fun s e => h.2 s (List.mem_cons_of_mem _ e)⟩
+    simp only [validX, valid] at ih ⊢
+    cases v with
+    | nan => exact absurd (by simp) h.1
+    | inf s => exact absurd (by simp) (h.2 s)
+    | missing => rw [List.filterMap_cons_none (by rfl), List.filterMap_cons_none (by rfl)]; exact ih hr
+    | nonNum t => rw [List.filterMap_cons_none (by rfl), List.filterMap_cons_none (by rfl)]; exact ih hr
+    | negZero =>
+      rw [List.filterMap_cons_some (b := X.num 0) (by rfl), List.filterMap_cons_some (b := (0 : Rat)) (by rfl),
+        List.map_cons, ih hr]
+    | int i =>
+      rw [List.filterMap_cons_some (b := X.num i) (by rfl), List.filterMap_cons_some (b := (i : Rat)) (by rfl),
+        List.map_cons, ih hr]
+    | flt q =>
+      rw [List.filterMap_cons_some (b := X.num q) (by rfl), List.filterMap_cons_some (b := q) (by rfl),
+        List.map_cons, ih hr]
+
+theorem inf_mem_floats (vs : List Val) (s : Bool) (h : Val.inf s ∈ vs) : F.inf s ∈ floats vs := by
+  simp only [floats, List.mem_filterMap]
+  exact ⟨Val.inf s, h, rfl⟩
+
+/-! ### an infinite input makes Welford's `m2` NaN (`∞ − ∞` in `delta2`) -/
+
+theorem foldl_wStep_m2_nan (xs : List F) (w : W) (h : w.m2 = .nan) : (xs.foldl wStep w).m2 = .nan := by
+  induction xs generalizing w with
+  | nil => simpa using h
+  | cons x rest ih =>
+    simp only [List.foldl_cons]
+    apply ih; simp [wStep, h]
+
+theorem wStep_inf_m2 (w : W) (s : Bool) : (wStep w (.inf s)).m2 = .nan := by
+  have hpos : decide (((w.n : Nat) : Rat) + 1 < 0) = false := by
+    have : (0 : Rat) ≤ ((w.n : Nat) : Rat) := Rat.natCast_nonneg
+    simp only [decide_eq_false_iff_not]
+    grind
+  cases hm : w.mean with
+  | nan => cases hm2 : w.m2 <;> simp [wStep, hm, hm2] <;> rfl
+  | num mu =>
+    have h1 : (F.inf s - F.num mu : F) = F.inf s := by cases s <;> rfl
+    have h2 : (F.inf s / F.num ((w.n + 1 : Nat) : Rat) : F) = F.inf s := by
+      show F.div (F.inf s) (F.num _) = _
+      simp [F.div, hpos]
+    have h3 : (F.num mu + F.inf s : F) = F.inf s := rfl
+    have h4 : (F.inf s - F.inf s : F) = F.nan := by cases s <;> rfl
+    have h5 : (F.inf s * F.nan : F) = F.nan := rfl
+    simp only [wStep, hm, h1, h2, h3, h4, h5, F.add_nan]
+  | inf t =>
+    by_cases hst : s = t
+    · subst hst
+      have h1 : (F.inf s - F.inf s : F) = F.nan := by cases s <;> rfl
+      simp only [wStep, hm, h1, F.nan_div, F.add_nan, F.sub_nan, F.nan_mul, F.mul_nan]
+    · have h1 : (F.inf s - F.inf t : F) = F.inf s := by cases s <;> cases t <;> simp_all <;> rfl
+      have h2 : (F.inf s / F.num ((w.n + 1 : Nat) : Rat) : F) = F.inf s := by
+        show F.div (F.inf s) (F.num _) = _
+        simp [F.div, hpos]
+      have h3 : (F.inf t + F.inf s : F) = F.nan := by cases s <;> cases t <;> simp_all <;> rfl
+      simp only [wStep, hm, h1, h2, h3, F.sub_nan, F.mul_nan, F.add_nan]
+
+theorem welford_inf (xs : List F) (w : W) (s : Bool) (h : F.inf s ∈ xs) : (xs.foldl wStep w).m2 = .nan := by
+  induction xs generalizing w with
+  | nil => simp at h
+  | cons x rest ih =>
+    simp only [List.foldl_cons]
+    rcases List.mem_cons.mp h with e | e
+    · subst e
+      exact foldl_wStep_m2_nan _ _ (wStep_inf_m2 w s)
+    · exact ih _ e
 
 theorem nan_mem_floats (vs : List Val) (h : Val.nan ∈ vs) : F.nan ∈ floats vs := by
   simp only [floats, List.mem_filterMap]
